@@ -1,4 +1,5 @@
 import RustbusModel.Lemmas.RecvRun
+import RustbusModel.Lemmas.EndToEnd
 /-!
 C09 — Incoming bytes are reassembled into exactly the sent messages under any chunking.
 
@@ -280,9 +281,57 @@ theorem refused_announcement_reads_nothing (st : State) (w : World) (c : Call) (
     (bytesNeeded st.buf = .tooLong → step c st w evs = (.tooLong, st, w)) :=
   ⟨fun h => step_invalid h c w evs, fun h => step_tooLong h c w evs⟩
 
+/-- END TO END, across the models of C15 (body builder / parser), C05 (header marshalling), C18 (limits) and this one:
+    a message whose body was built by pushing the values `ps`, marshalled by the send side (`hdr ++ body`), sent with
+    any descriptors riding on any byte of it, is — under ANY chunking, short reads, timeouts and call pattern that
+    consumes the stream — handed to the receiver exactly once, as exactly those bytes with exactly those descriptors;
+    the bytes decode to the message's own fixed header, header fields and body; and the parser reads back from that
+    body exactly the values that were pushed, in order, using all of it. -/
+theorem end_to_end (bo : ByteOrder) (ps : List (Ty × Val)) (b : Body.Body)
+    (hb : Body.pushAll (Body.Body.empty bo) (Body.plainItems ps) = some b)
+    (hsig : Spec.Sig.Denotes b.sig (Body.itemsTypes ps))
+    (hd : ∀ q ∈ ps, Spec.Wire.depthOf q.1 q.2 ≤ Wire.maxDepth ∧ Spec.Wire.fdsBelow 0 q.1 q.2 = true)
+    (m : Msg) (hmb : m.body = b.buf) (serial : Nat)
+    (hr : Spec.Header.msgInRange m serial) (hs : 0 < serial) (hrs : m.replySerial ≠ some 0)
+    (hdr : List UInt8) (hm : marshalHeader m serial = some hdr)
+    (fs : List Field) (hf : Spec.Header.entriesFields (Spec.Header.msgEntries m) = some fs) (hok : fieldsOk m.typ fs = true)
+    (fds : List Nat) (hfd : fds.length ≤ cmsgCap) (hpos : p ⟨hdr ++ m.body, fds⟩ < (hdr ++ m.body).length)
+    (acts : List Action) (tr : List Res) (st : State) (w : World)
+    (h : run State.empty (World.init p [⟨hdr ++ m.body, fds⟩]) acts = (tr, st, w))
+    (hbuf : st.buf = []) (hrest : w.rest = []) :
+    msgs tr = [⟨hdr ++ m.body, fds⟩] ∧
+    decodeMessage (hdr ++ m.body) = some (⟨m.bo, m.typ, m.flags, m.body.length, serial⟩, fs, b.buf) ∧
+    Body.getAll b ⟨0, 0⟩ (Body.itemsTypes ps) = .ok (Body.itemsVals ps, ⟨b.buf.length, b.sig.length⟩) := by
+  have hfo := marshalled_frameOk m serial hr hs hrs hdr hm fs hf hok fds hfd
+  have hoks : FramesOk p [⟨hdr ++ m.body, fds⟩] := by
+    intro f hfm
+    simp only [List.mem_cons, List.not_mem_nil, or_false] at hfm
+    subst hfm
+    exact ⟨hfo, hpos⟩
+  refine ⟨complete_history_returns_all _ acts tr st w hoks h hbuf hrest, ?_, Body.parser_roundtrip bo ps b hb hsig hd⟩
+  have := marshal_decode m serial hr hs hrs hdr hm fs hf hok
+  rw [this, hmb]
+
 /-! ### non-vacuity -/
 
+-- the hypotheses of `end_to_end` are met by a concrete message: a signal with body (u32 7, "hi")
+def e2ePs : List (Ty × Val) := [(Ty.base .u32, .num 7), (Ty.base .string, .str [104, 105])]
+def e2eBody : Body.Body := ⟨.le, [7, 0, 0, 0, 2, 0, 0, 0, 104, 105, 0], ['u', 's'], 0⟩
+example : (Body.pushAll (Body.Body.empty .le) (Body.plainItems e2ePs)).map (fun b => (b.buf, b.sig, b.nfds)) = some (e2eBody.buf, e2eBody.sig, 0) := by decide +kernel
+def e2eMsg : Msg :=
+  { bo := .le, typ := 4, flags := 0, replySerial := none,
+    interface := some [97, 46, 98], destination := none, sender := none, member := some [77],
+    path := some [47, 111], errorName := none, bodySig := [117, 115], body := e2eBody.buf, nfds := 0 }
+example : (marshalHeader e2eMsg 5).isSome = true := by decide +kernel
+example : (Spec.Header.entriesFields (Spec.Header.msgEntries e2eMsg)).isSome = true := by decide +kernel
+example : Spec.Sig.Denotes e2eBody.sig (Body.itemsTypes e2ePs) := by
+  refine ⟨by decide, by decide +kernel, ?_⟩
+  unfold Spec.Sig.ValidTypes
+  decide +kernel
+
+
 /-- method call `b` on `/a`, serial 1, no body: 48 bytes -/
+
 def exF1 : Frame :=
   { bytes := [108, 1, 0, 1, 0, 0, 0, 0, 1, 0, 0, 0, 27, 0, 0, 0, 3, 1, 115, 0, 1, 0, 0, 0, 98, 0, 0, 0, 0, 0, 0, 0,
       1, 1, 111, 0, 2, 0, 0, 0, 47, 97, 0, 0, 0, 0, 0, 0],
@@ -395,3 +444,4 @@ end Rustbus.Recv
 #print axioms Rustbus.Recv.one_byte_at_a_time
 #print axioms Rustbus.Recv.refused_announcement_reads_nothing
 #print axioms Rustbus.Recv.read_once_on_complete_buffer_keeps_descriptors
+#print axioms Rustbus.Recv.end_to_end
